@@ -69,6 +69,7 @@ inductive E where
   | operand (n : Nat)
   | un (u : OpInfo) (e : E)
   | bin (o : OpInfo) (l r : E)
+  | call0 (f : Nat)            -- arity-0 function used as a constant (`pi`)
   | call1 (f : Nat) (e : E)
   | call2 (f : Nat) (e1 e2 : E)
 deriving Repr
@@ -77,6 +78,7 @@ def pfx : E → List Tok
   | .operand n => [operand n]
   | .un u e => pfx e ++ [op u]
   | .bin o l r => pfx l ++ pfx r ++ [op o]
+  | .call0 f => [fn f]
   | .call1 f e => pfx e ++ [fn f]
   | .call2 f e1 e2 => pfx e1 ++ pfx e2 ++ [fn f]
 
@@ -91,11 +93,12 @@ def pr (a b : Nat) : E → List Tok
   | .bin o l r =>
     if o.L < a ∨ o.R < b then [lp] ++ (pr 0 o.L l ++ [op o] ++ pr (o.R + 1) 0 r) ++ [rp]
     else pr a o.L l ++ [op o] ++ pr (o.R + 1) b r
+  | .call0 f => if 2 * FP < b then [lp, fn f, rp] else [fn f]
   | .call1 f e => [fn f, lp] ++ pr 0 0 e ++ [rp]
   | .call2 f e1 e2 => [fn f, lp] ++ pr 0 0 e1 ++ [comma] ++ pr 0 0 e2 ++ [rp]
 
-/-- every pending entry is an operator (not a function) with `R ≥ b` -/
-def Pend (b : Nat) (pend : List Tok) : Prop := ∀ t ∈ pend, ∃ o, t = op o ∧ b ≤ o.R
+/-- every pending entry is an operator or an arity-0 function with stack level `≥ b` -/
+def Pend (b : Nat) (pend : List Tok) : Prop := ∀ t ∈ pend, ∃ r, stackR t = some r ∧ b ≤ r
 
 /-- nothing at the top of `st` is popped by an incoming operator of level `≥ a` -/
 def Adm (a : Nat) (st : List Tok) : Prop := ∀ l, a ≤ l → popWhile l st = ([], st)
@@ -105,18 +108,18 @@ theorem popWhile_pend (l : Nat) (pend st : List Tok) (h : Pend l pend) (ha : Adm
   induction pend with
   | nil => simpa using ha l (Nat.le_refl _)
   | cons t pend ih =>
-    obtain ⟨o, rfl, ho⟩ := h t (by simp)
+    obtain ⟨r, hr, ho⟩ := h t (by simp)
     have ih' := ih (fun t ht => h t (by simp [ht]))
-    simp [popWhile, stackR, ho, ih']
+    simp [popWhile, hr, ho, ih']
 
 theorem popToParenKeep_pend (b : Nat) (pend st : List Tok) (h : Pend b pend) :
     popToParenKeep (pend ++ lp :: st) = some (pend, lp :: st) := by
   induction pend with
   | nil => simp [popToParenKeep]
   | cons t pend ih =>
-    obtain ⟨o, rfl, _⟩ := h t (by simp)
+    obtain ⟨r, hr, _⟩ := h t (by simp)
     have ih' := ih (fun t ht => h t (by simp [ht]))
-    simp [popToParenKeep, ih']
+    cases t <;> simp [stackR] at hr <;> simp [popToParenKeep, ih']
 
 theorem adm_mono {a a' : Nat} {st} (h : Adm a st) (hc : a ≤ a') : Adm a' st :=
   fun l h' => h l (Nat.le_trans hc h')
@@ -129,13 +132,13 @@ theorem adm_push (o : OpInfo) (st : List Tok) : Adm (o.R + 1) (op o :: st) := by
   simp [popWhile, stackR, this]
 
 theorem pend_weaken {b b' : Nat} {pend} (h : Pend b pend) (hb : b' ≤ b) : Pend b' pend := by
-  intro t ht; obtain ⟨o, rfl, ho⟩ := h t ht; exact ⟨o, rfl, Nat.le_trans hb ho⟩
+  intro t ht; obtain ⟨r, hr, ho⟩ := h t ht; exact ⟨r, hr, Nat.le_trans hb ho⟩
 
 theorem pend_snoc {b : Nat} {pend} {o : OpInfo} (h : Pend b pend) (ho : b ≤ o.R) : Pend b (pend ++ [op o]) := by
   intro t ht
   rcases List.mem_append.1 ht with h' | h'
   · exact h t h'
-  · simp at h'; exact ⟨o, h', ho⟩
+  · simp at h'; exact ⟨o.R, by simp [h', stackR], ho⟩
 
 /-- a group `( body )` where `body` leaves `pend` pending above the paren and the entry below the paren is not a function -/
 theorem close_group (ts q pend st : List Tok) (b : Nat) (h : Pend b pend) (hst : ∀ f r, st ≠ fn f :: r) :
@@ -220,6 +223,20 @@ theorem main (e : E) : ∀ (a b : Nat) (q st ts : List Tok), Adm a st → NoFnTo
       have h2 : b ≤ o.R := by omega
       obtain ⟨q', pend, hp, hrun, hq⟩ := body a b q st ts hadm hnf h1 h2
       exact ⟨q', pend, hp, by simp only [pr, hpar, if_false]; exact hrun, hq⟩
+  | call0 f =>
+    intro a b q st ts _ hnf
+    by_cases hb : 2 * FP < b
+    · refine ⟨q ++ [fn f], [], by simp [Pend], ?_, by simp [pfx]⟩
+      have hp1 : Pend 0 [fn f] := by intro t ht; simp at ht; exact ⟨2 * FP, by simp [ht, stackR], Nat.zero_le _⟩
+      have := close_group ts q [fn f] st 0 hp1 hnf
+      simp only [pr, hb, if_true, List.cons_append, List.nil_append]
+      show sy (lp :: fn f :: rp :: ts) q st = _
+      have e : ([fn f] : List Tok) ++ lp :: st = fn f :: lp :: st := rfl
+      rw [e] at this
+      have step1 : sy (lp :: fn f :: rp :: ts) q st = sy (rp :: ts) q (fn f :: lp :: st) := by simp only [sy]
+      rw [step1, this]
+    · refine ⟨q, [fn f], ?_, by simp [pr, hb, sy], by simp [pfx]⟩
+      intro t ht; simp at ht; exact ⟨2 * FP, by simp [ht, stackR], by omega⟩
   | call1 f e ih =>
     intro a b q st ts _ _
     obtain ⟨q1, pe, hpe, hrun, hq1⟩ := ih 0 0 q (lp :: fn f :: st) ([rp] ++ ts) (adm_lp 0 _) (by intro f r h; cases h)
@@ -255,7 +272,7 @@ theorem sy_correct (e : E) : sy (pr 0 0 e) [] [] = some (pfx e) := by
   rw [this, hrun]
   have hall : (pend ++ []).all isObj = true := by
     simp only [List.append_nil, List.all_eq_true]
-    intro t ht; obtain ⟨o, rfl, _⟩ := hp t ht; rfl
+    intro t ht; obtain ⟨r, hr, _⟩ := hp t ht; simp [isObj, hr]
   simp only [sy, hall, if_true]
   simpa using hq
 
@@ -280,5 +297,7 @@ open E in
 #eval pr 0 0 (un oNeg (bin oPow (operand 0) (operand 1)))                       -- .- a ^ b
 open E in
 #eval pr 0 0 (un oNeg (bin oMul (operand 0) (operand 1)))                       -- .- ( a * b )
+open E in
+#eval (pr 0 0 (bin oMul (bin oPow (operand 2) (call0 9)) (call1 8 (call0 9))), sy (pr 0 0 (bin oMul (bin oPow (operand 2) (call0 9)) (call1 8 (call0 9)))) [] [])
 open E in
 #eval pr 0 0 (bin oMul (un oNeg (operand 0)) (call2 7 (operand 1) (bin oAdd (operand 2) (operand 3))))
